@@ -109,6 +109,9 @@ def correspond(ctx, scale):
         big = ci % 6 == 5
         if big:
             K = rng.choice([1, 2])
+        shared_heads_masked = ci % 9 == 8
+        if shared_heads_masked:
+            heads, sep, K = 2, False, 4          # several heads SHARING one codebook, a ragged mask (rows differ), several samples: tokens are laid out (b h n)
         if ci % 6 == 4:
             cosine = False          # first call under CPU autocast (below): the Euclidean sum invariant is the one that sees low-precision centroid sums
         if ci % 7 == 6:
@@ -149,13 +152,18 @@ def correspond(ctx, scale):
             dist['structured_first_batches'] = dist.get('structured_first_batches', 0) + 1
         kwargs = {}
         masked = rng.random() < 0.35 and nn_ > 1
+        if shared_heads_masked:
+            b, nn_, masked = 3, 6, True
+            x = vqrec.grid(rng, (b, nn_, d * heads), den=8, lim=40)
         if masked:
             m = torch.tensor([[rng.random() < 0.6 for _ in range(nn_)] for _ in range(b)])
             m[:, 0] = True
+            if shared_heads_masked:
+                m = torch.arange(nn_)[None, :] < torch.tensor([6, 2, 4])[:, None]
             kwargs['mask'] = m
             x = torch.where(m[..., None], x, torch.full_like(x, 1e6 if rng.random() < 0.5 else -3e4))   # adversarial padding
         first_mode = rng.choice(['eval', 'train', 'frozen'])
-        if big or ci % 7 == 6 or (ci % 5 == 2 and nn_ >= 2) or ci % 6 == 4:
+        if big or ci % 7 == 6 or (ci % 5 == 2 and nn_ >= 2) or ci % 6 == 4 or shared_heads_masked:
             first_mode = ['eval', 'frozen'][(ci // 6) % 2]       # the initialisation invariants are read off a pure first call: big batches always get one
         vq.train(first_mode != 'eval')
         if first_mode == 'frozen':
